@@ -205,21 +205,132 @@ def check_pinv(rec, rng, chinfo, dtype):
                   'pinv:moore-penrose', '', inp)
 
 
+def check_polar(rec, rng, chinfo, dtype):
+    """a == u p (left=False) / a == p u (left=True); u has orthonormal columns resp. rows on the range of a, p is Hermitian and
+    positive semi-definite, s are the singular values"""
+    import tenpy.linalg.np_conserved as npc
+    a = _matrix(rng, chinfo, dtype, deficient=bool(rng.integers(0, 2)))
+    A = a.to_ndarray()
+    if not np.any(A):
+        return
+    inp = {'mod': chinfo.mod.tolist(), 'dtype': str(np.dtype(dtype)), 'legs': [(l.qconj, l.slices.tolist(), l.charges.tolist()) for l in a.legs]}
+    rec.case(('polar', chinfo.mod.tobytes(), A.shape, len(a._data)), len(a._data) >= 2)
+    for left in (False, True):
+        tag = f'polar(left={left})'
+        ok, res = rec.guarded(f'{tag}:exception', lambda: npc.polar(a, cutoff=1e-12, left=left), dict(inp, left=left))
+        if not ok:
+            continue
+        u, p_, s_ = res
+        for nm, x in (('u', u), ('p', p_)):
+            bad = gen.sanity(x)
+            rec.check(not bad, f'{tag}:{nm}-invariant', str(bad), dict(inp, left=left))
+        ok2, prod = rec.guarded(f'{tag}:factors-not-contractible', lambda: (npc.tensordot(p_, u, axes=1) if left else npc.tensordot(u, p_, axes=1)),
+                                dict(inp, left=left))
+        if ok2:
+            rec.check(prod.to_ndarray().shape == A.shape and np.allclose(prod.to_ndarray(), A, atol=1e-8), f'{tag}:reconstruction',
+                      f'max dev {np.abs(prod.to_ndarray() - A).max() if prod.to_ndarray().shape == A.shape else "shape"}', dict(inp, left=left))
+        P = p_.to_ndarray()
+        rec.check(np.allclose(P, P.conj().T, atol=1e-9) and np.linalg.eigvalsh((P + P.conj().T) / 2).min() > -1e-9,
+                  f'{tag}:p-hermitian-positive', '', dict(inp, left=left))
+        sv = np.linalg.svd(A, compute_uv=False)
+        sv = np.sort(sv[sv > 1e-10])
+        rec.check(len(s_) == len(sv) and np.allclose(np.sort(np.asarray(s_)), sv, atol=1e-8), f'{tag}:singular-values',
+                  f'{np.sort(np.asarray(s_))} vs {sv}', dict(inp, left=left))
+        U = u.to_ndarray()
+        # u is a partial isometry with the rank of a: u^dagger u (resp. u u^dagger) is a projector of that rank
+        G = U.conj().T @ U
+        rec.check(np.allclose(G @ G, G, atol=1e-8) and abs(np.trace(G).real - len(sv)) < 1e-7, f'{tag}:u-partial-isometry', '', dict(inp, left=left))
+    rec.check(np.allclose(a.to_ndarray(), A), 'polar:operand-changed', '', inp)
+
+
+def check_orthogonal_columns(rec, rng, chinfo, dtype):
+    """orthogonal completion: for a of shape (M, N) with full column rank the result is an (M, M-N) isometry whose columns are
+    orthogonal to those of a; its charges make it contractible with a's first leg"""
+    import tenpy.linalg.np_conserved as npc
+    for attempt in range(6):
+        a = _matrix(rng, chinfo, dtype)
+        A = a.to_ndarray()
+        if A.shape[0] >= A.shape[1] and A.shape[1] >= 1 and np.linalg.matrix_rank(A) == A.shape[1]:
+            break
+    else:
+        # make one with full column rank: an isometry from a QR of a random square matrix, restricted to some columns
+        b = _matrix(rng, chinfo, dtype, square=True)
+        b = b + 3.0 * npc.eye_like(b, 0, labels=['r', 'c'])
+        keep = rng.random(b.shape[1]) < 0.6
+        if not keep.any() or np.linalg.matrix_rank(b.to_ndarray()) < b.shape[0]:
+            return
+        a = b.copy(deep=True)
+        a.iproject(keep, 'c')
+        A = a.to_ndarray()
+    inp = {'mod': chinfo.mod.tolist(), 'dtype': str(np.dtype(dtype)), 'legs': [(l.qconj, l.slices.tolist(), l.charges.tolist()) for l in a.legs],
+           'qtotal': a.qtotal.tolist()}
+    M, N = A.shape
+    rec.case(('orthogonal_columns', chinfo.mod.tobytes(), A.shape, len(a._data)), len(a._data) >= 2 and M > N)
+    for new_label in (None, 'new'):
+        ok, o = rec.guarded('orthogonal_columns:exception', lambda: npc.orthogonal_columns(a, new_label), dict(inp, new_label=new_label))
+        if not ok:
+            continue
+        bad = gen.sanity(o)
+        rec.check(not bad, 'orthogonal_columns:invariant', str(bad), inp)
+        O = o.to_ndarray()
+        rec.check(O.shape == (M, M - N), 'orthogonal_columns:shape', f'{O.shape} for input {A.shape}', inp)
+        rec.check(np.allclose(O.conj().T @ O, np.eye(O.shape[1]), atol=1e-9), 'orthogonal_columns:isometry', '', inp)
+        rec.check(O.shape[0] == M and np.allclose(A.conj().T @ O, 0, atol=1e-9), 'orthogonal_columns:orthogonal-to-input', '', inp)
+        rec.check(o.get_leg_labels() == [a.get_leg_labels()[0], new_label if new_label is not None else a.get_leg_labels()[1]],
+                  'orthogonal_columns:labels', str(o.get_leg_labels()), inp)
+        ok2, _ = rec.guarded('orthogonal_columns:not-contractible-with-input', lambda: npc.tensordot(a.conj(), o, axes=[0, 0]), inp)
+    rec.check(np.allclose(a.to_ndarray(), A), 'orthogonal_columns:operand-changed', '', inp)
+
+
+def check_speigs(rec, rng):
+    """tools.math.speigs / speigsh (used for the dense corner of sparse diagonalisation): min(k, d) eigenvalues, the extreme ones in
+    the requested sense, with eigenvectors satisfying A v = w v when requested"""
+    from tenpy.tools import math as tmath
+    key = {'LM': lambda w: -np.abs(w), 'SM': lambda w: np.abs(w), 'LR': lambda w: -w.real, 'SR': lambda w: w.real,
+           'LA': lambda w: -w.real, 'SA': lambda w: w.real}
+    for herm, fn, whichs in ((False, tmath.speigs, ('LM', 'LR', 'SR')), (True, tmath.speigsh, ('LM', 'LA', 'SA'))):
+        for d in (1, 2, 3, 5):
+            A = rng.standard_normal((d, d)) + 1j * rng.standard_normal((d, d))
+            if herm:
+                A = A + A.conj().T
+            ref = np.linalg.eigvalsh(A) if herm else np.linalg.eigvals(A)
+            for k in range(max(1, d - 1), d + 2):          # the dense branch: k >= d - 1
+                for which in whichs:
+                    for ret_v in (True, False):
+                        inp = {'function': fn.__name__, 'd': d, 'k': k, 'which': which, 'return_eigenvectors': ret_v, 'seed': rec.seed}
+                        rec.begin(f'C05 {inp}')
+                        rec.case((fn.__name__, d, k, which, ret_v), True)
+                        ok, res = rec.guarded(f'{fn.__name__}:exception', lambda: fn(A, k, which=which, return_eigenvectors=ret_v), inp)
+                        if not ok:
+                            continue
+                        w = np.asarray(res[0] if ret_v else res)
+                        n = min(k, d)
+                        exp = ref[np.argsort(key[which](ref), kind='stable')[:n]]
+                        good = len(w) == n and np.allclose(np.sort_complex(np.asarray(w, complex)), np.sort_complex(np.asarray(exp, complex)), atol=1e-8)
+                        rec.check(good, f'{fn.__name__}(return_eigenvectors={ret_v}):eigenvalues',
+                                  f'{len(w)} values {w} vs the {n} extreme ones {exp}', inp)
+                        if ret_v and len(w) == n:
+                            V = np.asarray(res[1])
+                            rec.check(V.shape == (d, n) and np.allclose(A @ V, V * w[np.newaxis, :], atol=1e-8), f'{fn.__name__}:eigenpairs', '', inp)
+
+
 def run(rec):
     warnings.simplefilter('ignore')
     rng = np.random.default_rng(rec.seed + 5)
     quick = rec.tier == 'quick'
     n = 4 if quick else 60
     rec.rule = ('random rank-2 tensors over generated charge structures (rank deficient / missing / zero blocks, non-blocked '
-                'legs, qtotal != 0, complex) x every option combination of svd (reduced), qr/lq, eigh/eigvalsh/eig, expm, pinv; '
+                'legs, qtotal != 0, complex) x every option combination of svd (reduced), qr/lq, eigh/eigvalsh/eig, expm, pinv, polar (left/right), '
+                'orthogonal_columns; '
                 'run-time contracts: reconstruction, isometry/unitarity, S >= 0, eigenpairs, Moore-Penrose, sanity + claims of the '
                 'factors, requested qtotal, contractible inner legs, inner_qconj; non-trivial = input stores >= 2 blocks')
     rec.bounds = {'matrices_per_chinfo_and_kind': n, 'block_size': '1-3', 'blocks_per_leg': '1-4'}
     for chinfo in gen.chinfos():
         for k in range(n):
             dtype = [np.float64, np.complex128][k % 2]
-            for fn in (check_svd, check_qr, check_eig, check_pinv):
+            for fn in (check_svd, check_qr, check_eig, check_pinv, check_polar, check_orthogonal_columns):
                 rec.begin(f'C05 {fn.__name__} chinfo={chinfo.mod} k={k} seed={rec.seed}')
                 rec.guarded(f'{fn.__name__}:harness', lambda: fn(rec, rng, chinfo, dtype))
+    rec.guarded('check_speigs:harness', lambda: check_speigs(rec, rng))
     if rec.samples == []:
         rec.samples.append({'example': 'svd/qr/eigh/pinv of 2-leg tensors with legs like slices [0,1,3,4], charges [[1],[0],[1]] mod 3'})
